@@ -691,7 +691,7 @@ class Prop:
         def wqr(A, *a, **k):
             Q, R = oqr(A, *a, **k); qrs.append((A.detach().clone(), Q.detach().clone(), R.detach().clone())); return Q, R
         def wts(M, *a, **k):
-            l, r = ots(M, *a, **k); tss.append((M.detach().clone(), float(k.get("delta") or 0.0), l.detach().clone(), r.detach().clone())); return l, r
+            l, r = ots(M, *a, **k); tss.append((M.detach().clone(), float(k.get("delta") or 0.0), l.detach().clone(), r.detach().clone(), int(k.get("rmax") or 0))); return l, r
         kw = {"eps": case["eps"], "algorithm": case["alg"]}
         if case.get("rmax") is not None:
             kw["rmax"] = case["rmax"]
@@ -709,9 +709,11 @@ class Prop:
         qx = lambda x: qlit(Fraction(float(x)))
         x2 = lambda A: "(mkA2 %d %d %s)" % (A.shape[0], A.shape[1], coq_list(A.reshape(-1).tolist(), qx, "Q"))
         qa = "[" + "; ".join("mkAns %d %s %s %s" % (Q.shape[1], x2(Q), x2(R), a2(A)) for A, Q, R in qrs) + "]"
-        ta = "[" + "; ".join("mkTs %s %s %s %s" % (x2(l), x2(r), a2(M), qlit(Fraction(d * d).limit_denominator(10 ** 15))) for M, d, l, r in tss) + "]"
+        ta = "[" + "; ".join("mkTs %s %s %s %s %d%%nat" % (x2(l), x2(r), a2(M), qlit(Fraction(d * d).limit_denominator(10 ** 15)), rm) for M, d, l, r, rm in tss) + "]"
+        rmx = case.get("rmax")
+        rmaxs = [0] * (N - 1) if rmx is None else (list(rmx) if isinstance(rmx, list) else [int(rmx)] * (N - 1))
         d = t.torch().detach().double()
         lit = lambda x: qlit(Fraction(x).limit_denominator(10 ** 9))
         eps2 = Fraction(case["eps"]).limit_denominator(10 ** 12) ** 2
-        return "mkCase %s %s %s %s %s %s" % (coq_tensor(tj, lit, "Q"), qlit(eps2), qa, ta, coq_natlist(list(d.shape)),
+        return "mkCase %s %s %s %s %s %s %s" % (coq_tensor(tj, lit, "Q"), qlit(eps2), coq_natlist(rmaxs), qa, ta, coq_natlist(list(d.shape)),
                                             coq_list(d.reshape(-1).tolist(), ql, "Q"))
